@@ -182,6 +182,9 @@ def run(tier):
     G = setup()
     A = alphabet()
     extra = [('sv', 'json/%s.json' % s, 'Draft6Validator', False) for s in SCHEMAS]
+    # validator classes derived with jsonschema.validators.extend (they all carry the class name 'Validator')
+    EXTV = [('sv', 'json/%s.json' % sname, 'ext:' + v, ef) for sname in SCHEMAS for v in ('Draft3Validator', 'Draft4Validator') for ef in (False, True)]
+    extra += EXTV
     X = cross_calls()
     R = reduced_alphabet()
     extra += [c for c in X + R if c not in A and c not in extra]
@@ -236,6 +239,11 @@ def run(tier):
         bykey.setdefault(key_of(c), []).append(c)
     triples = [list(t) for calls in bykey.values() for t in itertools.product(calls, repeat=3)]
     go('triples over calls sharing a cache key', work, [('triple', triples[i::16]) for i in range(16)])
+    # ---- derived validator classes: alone, and in ordered pairs with every schema check of the same file
+    go('schema checks with derived validator classes alone', work, [('single', [[c] for c in EXTV[i::8]]) for i in range(8)])
+    svA = [c for c in A if c[0] == 'sv'] + EXTV
+    ep = [[a, b] for a in EXTV for b in svA if a[1] == b[1]] + [[b, a] for a in EXTV for b in svA if a[1] == b[1] and b not in EXTV]
+    go('ordered pairs with a derived validator class on the same schema file', work, [('pair', ep[i::32]) for i in range(32)])
     # ---- documents against the schemas of other families: alone, and in ordered pairs with every call on the same schema or document
     go('mismatched document/schema calls alone', work, [('single', [[c] for c in X[i::16]]) for i in range(16)])
     files = lambda c: {c[1]} if c[0] == 'sv' else {c[1], c[2]}
